@@ -68,9 +68,17 @@ CLAIMS = {
             TECH_K + " (bounded lengths)", "§3 C09"),
     "C10": ("model_checking",
             "The shared time-window rule check_time_windows == documented rule E1103 for <= 3 (thorough: 4) windows (found defect F2, fixed); TimeWindow::intersects == inclusive overlap. "
-            "Job rules E1101/E1103/E1105/E1106/E1107: Err(code) iff the documented predicate is broken, over all four task kinds (one job, <= 2 tasks; found defect F3, fixed). Vehicle rules E1304 (reload windows may intersect each other, must touch the shift), E1306, E1307: Err(code) iff the documented predicate is broken, against check_time_windows' contract (bounded, U10c). The other rule functions and the reader are not under contract.",
-            "Bounded Kani harnesses; RFC3339 parsing, ids, JSON reader, 34 other rule functions are NOT under contract (string code).",
+            "Job rules E1101/E1103/E1105/E1106/E1107: Err(code) iff the documented predicate is broken, over all four task kinds (one job, <= 2 tasks; found defect F3, fixed). Vehicle rules E1304 (reload windows may intersect each other, must touch the shift), E1306, E1307 against check_time_windows' contract (U10c). "
+            "Relation rules E1200, E1201, E1202, E1204, E1205, E1206 with is_reserved_job_id (U10d), routing rules E1500..E1505 with the shared get_duplicates helper (also behind E1100/E1300/E1301; U10e), objective rules E1600..E1607 over the real Objective enum (U10f): "
+            "each returns Err with its own code exactly when the documented rule is broken (bounded: 1-2 relations / profiles / vehicles / jobs, ids from a table of constant strings). The remaining rule functions (E1100, E1102, E1104, E1203, E1207, E1300-E1303, E1305, E1308), the rule-group assembly and the reader are not under contract.",
+            "Bounded Kani harnesses; std String / Vec / HashMap / HashSet replaced by stated stand-ins (env/strings.rs: picks from a table of constant strings; env/vec_fixed.rs; env/collections_fixed_n.rs); RFC3339 parsing, the JSON reader and 12 rule functions are NOT under contract.",
             TECH_K + " (bounded)", "§3 C10"),
+    "C12": ("model_checking",
+            "Limits group of the checker only: check_shift_limits / check_shift_time / check_recharge_limits (verbatim) with CheckerContext::get_vehicle / get_vehicle_shift: a tour is accepted exactly when max distance, max shift time, tour size, "
+            "tour-inside-a-shift and distance-between-recharges hold; a reported violation names a limit that is really exceeded; a tour of an unknown vehicle is rejected (bounded: one tour of <= 3 stops, <= 2 shifts, integer values 0..9). "
+            "The other five rule groups (load, relations, breaks, assignment, routing) and CheckerContext::new / check are NOT under contract: a breach there is not detected.",
+            "Bounded Kani harnesses; time strings are opaque tokens (parse_time is a projection), std String / Vec replaced by stated stand-ins, message text reduced to its template; 5 of the 6 rule groups are not under contract.",
+            TECH_K + " (bounded)", "§3 C12"),
     "C14": ("proof",
             "Tour: representation invariant (depot ends in place, interior activities carry jobs, job set == jobs of activities) preserved by every mutator with whole-view postconditions, getters equal their spec - "
             "Verus, unbounded, hence all operation histories; legs() enumeration incl. the open-end leg and the bare-start case, index/index_last/job_activities, deep_copy independence (Kani, bounded <= 3 job activities); vehicle registry (registry.rs verbatim): from ANY state of 3 vehicles in 2 type groups one acquire/release matches the reference model (a vehicle is handed out exactly when free, never twice), available/next/all enumerate exactly the free / one free per group / all vehicles, deep copies are independent, a slice knows only the kept vehicles, Registry::new offers everything (Kani, bounded, U14c).",
